@@ -41,7 +41,9 @@ def _alpha(seed):
 
 M_SUFFIX = [a + b for a in "0123456789ABCDEFGH" for b in "0123456789"]
 KP = [("-", None)] + [(k, p) for k in M.TODO_KINDS for p in (None, "P0", "P9")]
-IDENTS = ["none", "zid", "mzid", "long", "zid-late-year", "mzid-late-year", "zid-leap-day"]
+IDENTS = ["none", "zid", "mzid", "long", "zid-late-year", "mzid-late-year", "zid-leap-day",
+          # leap days of century years that ARE leap years (divisible by 400)
+          "mzid-leap-2000", "long-leap-2000", "long-leap-2400"]
 TAILS = ["single", "cont", "bullet", "bullet_lookalike", "cont_ws"]
 
 
@@ -79,6 +81,13 @@ def _mk_item(seed, kind, prio, ident, widx, tail):
     elif ident == "zid-leap-day":
         item.mdate = "280229"
         item.ident = ("zid", "240229#L0")
+    elif ident == "mzid-leap-2000":
+        item.mdate = "000229"
+        item.ident = ("zid", "000229#C0")
+    elif ident == "long-leap-2000":
+        item.ident = ("long", "2000-02-29")
+    elif ident == "long-leap-2400":
+        item.ident = ("long", "2400-02-29")
     elif ident == "mzid-late-year":
         item.mdate = "990101"
         item.ident = ("zid", "851224#E5")
@@ -290,6 +299,8 @@ def _cases(ctx):
     for (k, p) in KP:
         for ident in IDENTS:
             for n in range(1, nwords + 1):
+                if "leap-2" in ident and n > 1 and ctx.quick:
+                    continue
                 for widx in it.product(range(10), repeat=n):
                     _, _, words = _alpha(ctx.seed)
                     if _is_written_prefix(k, p, ident, words[widx[0]]):
